@@ -216,3 +216,42 @@ def gen_array():
     rest = tail[tail.index('//@END-GENERATED-MAPFILTER'):]
     open(p, 'w').write(head + '//@GENERATED-MAPFILTER\n' + '\n'.join(out) + '\n' + rest)
 gen_array()
+
+
+
+def _splice(path, marker, lines):
+    s = open(path).read()
+    head, tail = s.split('//@GENERATED-' + marker + '\n', 1)
+    rest = tail[tail.index('//@END-GENERATED-' + marker):]
+    open(path, 'w').write(head + '//@GENERATED-' + marker + '\n' + '\n'.join(lines) + '\n' + rest)
+
+
+def gen_data():
+    p = os.path.join(VERIF, 'kani', 'op__data.rs')
+    out = []
+    kk = {0: 'str', 1: 'int', 2: 'null', 3: 'empty', 4: 'bool', 5: 'float'}
+    def v(nargs, kkind, pres, tier):
+        h = 'k_c11_var_%d_%s_p%d' % (nargs, kk[kkind], pres)
+        out.append('    //@ob name=C11.var.%d.%s.p%d harness=%s props=C11,C04,C01 tier=%s strength=bounded bound="%d operands; key kind %s (integer keys: every i64); lookup present-pattern %s; data, found value and default symbolic numbers" fns=op::data::var stubs=5 timeout=300 cutdrop=1 group=medium' % (nargs, kk[kkind], pres, h, tier, nargs, kk[kkind], bin(pres)))
+        out.append('    //@ desc="var: operand-less / null / \\"\\" => entire data; present value (whatever it is) wins over the default; absent => the default AS GIVEN (the parser is never applied to it: C04) else null; bad key kinds => error; exactly one lookup against the data (lookup by contract)"')
+        out.append('    var_harness!(%s, %d, %d, %d);' % (h, nargs, kkind, pres))
+    v(0, 0, 0, 'quick'); v(1, 0, 1, 'quick'); v(1, 0, 0, 'quick'); v(2, 0, 1, 'quick'); v(2, 0, 0, 'quick')
+    v(2, 1, 8, 'quick'); v(2, 1, 0, 'quick'); v(1, 2, 0, 'quick'); v(2, 3, 0, 'thorough'); v(1, 4, 0, 'quick'); v(2, 5, 0, 'thorough'); v(1, 1, 8, 'thorough')
+    _splice(p, 'VAR', out)
+    out = []
+    def m(shape, pres, tier):
+        h = 'k_c12_missing_s%d_p%d' % (shape, pres)
+        out.append('    //@ob name=C12.missing.s%d.p%d harness=%s props=C12,C01 tier=%s strength=bounded bound="key-list shape %d; present-pattern %s over keys a,b,c,integer" fns=op::data::missing stubs=3 timeout=300 cutdrop=2 group=medium' % (shape, pres, h, tier, shape, bin(pres)))
+        out.append('    //@ desc="missing: exactly the requested non-null keys whose lookup finds nothing, in request order; a first operand that is an array supplies the whole list; non-key kinds are errors (lookup by contract, the same one var uses)"')
+        out.append('    missing_harness!(%s, %d, %d);' % (h, shape, pres))
+    m(0, 0, 'quick'); m(0, 1, 'quick'); m(0, 3, 'thorough'); m(1, 2, 'quick'); m(2, 0, 'quick'); m(2, 9, 'thorough'); m(3, 0, 'quick'); m(4, 0, 'quick'); m(5, 1, 'thorough'); m(5, 0, 'thorough')
+    _splice(p, 'MISSING', out)
+    out = []
+    def ms(shape, pres, tier):
+        h = 'k_c12_missing_some_s%d_p%d' % (shape, pres)
+        out.append('    //@ob name=C12.missing_some.s%d.p%d harness=%s props=C12,C01 tier=%s strength=bounded bound="key-list shape %d; present-pattern %s; EVERY u64 threshold" fns=op::data::missing_some stubs=3 timeout=300 cutdrop=2 group=medium' % (shape, pres, h, tier, shape, bin(pres)))
+        out.append('    //@ desc="missing_some: for every threshold, [] iff the number of listed keys that are present reaches it (an absent key never counts, however often listed); otherwise the distinct missing keys in first-occurrence order"')
+        out.append('    missing_some_harness!(%s, %d, %d);' % (h, shape, pres))
+    ms(0, 0, 'quick'); ms(0, 1, 'quick'); ms(0, 3, 'thorough'); ms(1, 0, 'quick'); ms(1, 1, 'thorough'); ms(2, 2, 'quick'); ms(2, 0, 'thorough'); ms(3, 0, 'quick'); ms(4, 1, 'thorough')
+    _splice(p, 'MISSING-SOME', out)
+gen_data()
